@@ -2,11 +2,8 @@ CONSTANTS MaxLen = 4
           Mode = "big"
 INIT Init
 NEXT Next
-INVARIANT BigAntisym
-INVARIANT BigReflexive
-INVARIANT BigTransitive
-INVARIANT BigPinnedOK
-INVARIANT BigSmallPinnedOK
+INVARIANT BigLawsDouble
+INVARIANT BigLawsExact
 INVARIANT BigWellFormed
 INVARIANT BigCoarseTieUsed
 INVARIANT BigFastPathRejected
